@@ -168,7 +168,7 @@ def run_case(case, ctx):
                     try:
                         fresh[(g.name, ch.name)] = {'R': ch[:]}
                         U = ch.read_data(scaled=False)
-                        fresh[(g.name, ch.name)]['U'] = None if isinstance(U, dict) else C.image(U)
+                        fresh[(g.name, ch.name)]['U'] = {k_: C.image(v_) for k_, v_ in U.items()} if isinstance(U, dict) else C.image(U)
                         chans.append((g.name, ch.name))
                     except ValueError:
                         pass      # DAQmx raw channel without scaling information: not readable as scaled data
@@ -242,8 +242,13 @@ def run_case(case, ctx):
                     continue
                 o, l = rng.randrange(0, n + 1), rng.choice([None, 0, 1, 2, 3])
                 got = ch.read_data(o, l, scaled=False)
-                want = C.image_slice(Uimg, slice(o, None if l is None else o + l))
-                record(kind, (key, o, l), C.img_equal(C.image(got), want), {'why': 'wrong-unscaled-values', 'got': C.short(C.image(got)), 'want': C.short(want)})
+                sl_ = slice(o, None if l is None else o + l)
+                if isinstance(Uimg, dict):
+                    okd = isinstance(got, dict) and set(got) == set(Uimg) and all(C.img_equal(C.image(got[k_]), C.image_slice(Uimg[k_], sl_)) for k_ in Uimg)
+                    record(kind, (key, o, l), okd, {'why': 'wrong-unscaled-scaler-values'})
+                else:
+                    want = C.image_slice(Uimg, sl_)
+                    record(kind, (key, o, l), C.img_equal(C.image(got), want), {'why': 'wrong-unscaled-values', 'got': C.short(C.image(got)), 'want': C.short(want)})
             elif kind == 'new_gen':
                 if rng.random() < 0.5:
                     gens.append({'kind': 'chan', 'key': key, 'it': ch.data_chunks(), 'delivered': 0, 'done': False})
